@@ -84,6 +84,9 @@ pub struct Knobs {
     pub strategy: Strategy,
     pub sched_seed: u64,
     pub max_switches: u64,
+    /// references of this world's one-shot searches are also computed in pristine
+    /// grandchild processes (see pristine.rs)
+    pub pristine: bool,
 }
 
 #[derive(Clone, Debug, PartialEq)]
@@ -155,6 +158,7 @@ impl World {
             .set("strategy", J::s(&self.knobs.strategy.name()))
             .set("sched_seed", J::u(self.knobs.sched_seed))
             .set("max_switches", J::u(self.knobs.max_switches))
+            .set("pristine", J::Bool(self.knobs.pristine))
             .set("schedule", schedule_to_json(schedule))
     }
 
@@ -199,6 +203,7 @@ impl World {
             strategy: Strategy::Explicit,
             sched_seed: j.get("sched_seed").and_then(|v| v.as_u64()).unwrap_or(0),
             max_switches: j.get("max_switches").and_then(|v| v.as_u64()).unwrap_or(400),
+            pristine: j.get("pristine").and_then(|v| v.as_bool()).unwrap_or(false),
         };
         Ok((World { regexes, hays, threads, knobs }, schedule))
     }
